@@ -3,16 +3,16 @@
    length, class lattice and Retry policy source. *)
 From Coq Require Import String List NArith ZArith Bool Arith.
 From V Require Import lib.PyStr model.Retry model.PoolAcct proofs.PoolAcct_proofs
-  gen.Gen_Exc gen.Gen_Urlopen gen.Gen_Retry corr.Run_C04 corr.Run_C01.
+  gen.Gen_Exc gen.Gen_Urlopen gen.Gen_Retry gen.Gen_Read corr.Run_C04 corr.Run_C01.
 Import ListNotations.
 
-Definition final M B L ts tp ce re rac mk reqs script : pstate :=
-  fst (run_history M B L ts tp ce re rac mk reqs script (init_pool M)).
+Definition final M B L ts tp ce re rac mk rc reqs script : pstate :=
+  fst (run_history M B L ts tp ce re rac mk rc reqs script (init_pool M)).
 
 (* the pool never holds more than maxsize entries; when no response owns a connection it offers
    exactly maxsize slots again; with block=True slots + connections owned by responses = maxsize always *)
-Theorem slots_conserved : forall M B L ts tp ce re rac mk reqs script,
-  let st := final M B L ts tp ce re rac mk reqs script in
+Theorem slots_conserved : forall M B L ts tp ce re rac mk rc reqs script,
+  let st := final M B L ts tp ce re rac mk rc reqs script in
   (length (p_q st) <= M) /\
   (p_leases st = [] -> length (p_q st) = M) /\
   (B = true -> length (p_q st) + length (p_leases st) = M).
@@ -22,22 +22,22 @@ Qed.
 Print Assumptions slots_conserved.
 
 (* no connection object is idle in the pool twice, or both idle and owned by a response *)
-Theorem no_dup_conn : forall M B L ts tp ce re rac mk reqs script,
-  let st := final M B L ts tp ce re rac mk reqs script in
+Theorem no_dup_conn : forall M B L ts tp ce re rac mk rc reqs script,
+  let st := final M B L ts tp ce re rac mk rc reqs script in
   NoDup (map c_id (qconns (p_q st) ++ p_leases st)).
 Proof. intros. apply (PoolAcct_proofs.no_dup_conn M B). apply run_history_inv. apply init_inv. Qed.
 Print Assumptions no_dup_conn.
 
 (* once every response has given its connection back, every open socket is idle in the pool *)
-Theorem nonidle_sockets_closed : forall M B L ts tp ce re rac mk reqs script,
-  let st := final M B L ts tp ce re rac mk reqs script in
+Theorem nonidle_sockets_closed : forall M B L ts tp ce re rac mk rc reqs script,
+  let st := final M B L ts tp ce re rac mk rc reqs script in
   p_leases st = [] -> forall s, In s (p_open st) -> In s (socks_of (qconns (p_q st))).
 Proof. intros until script. intro st. apply (PoolAcct_proofs.nonidle_sockets_closed M B). apply run_history_inv. apply init_inv. Qed.
 Print Assumptions nonidle_sockets_closed.
 
 (* with block=True never more than maxsize sockets are open *)
-Theorem block_bound : forall M L ts tp ce re rac mk reqs script,
-  length (p_open (final M true L ts tp ce re rac mk reqs script)) <= M.
+Theorem block_bound : forall M L ts tp ce re rac mk rc reqs script,
+  length (p_open (final M true L ts tp ce re rac mk rc reqs script)) <= M.
 Proof. intros. apply (PoolAcct_proofs.block_bound M true); [apply run_history_inv; apply init_inv | reflexivity]. Qed.
 Print Assumptions block_bound.
 
@@ -60,13 +60,16 @@ Theorem errors_are_urllib3 :
 Proof. vm_compute. repeat split. Qed.
 Print Assumptions errors_are_urllib3.
 
+(* the theorems above hold whichever way release_conn() treats an unread response (rc); the executable model follows the
+   source (Gen_Read.release_closes_unread) *)
+
 (* KNOWN FINDING C01-F1: close() alone does not give the slot back — the full-strength statement
    ("read, released or closed") is false of the code that exists *)
 Theorem slots_conserved_close_refuted :
   exists reqs script,
     let st := final 1 true LAT (getl Gen_Urlopen.urlopen_to_sslerror) (getl Gen_Urlopen.urlopen_to_protocolerror)
                     (getl Gen_Urlopen.retry_connection_error) (getl Gen_Urlopen.retry_read_error)
-                    (getl Gen_Retry.retry_after_status_codes) (the_default false) reqs script in
+                    (getl Gen_Retry.retry_after_status_codes) (the_default false) true reqs script in
     map rq_disposal reqs = [DClose] /\ length (p_q st) = 0%nat /\ p_open st = [].
 Proof.
   exists [mkReq (S!"GET") false RNone DClose false], [mkAt KOk TOk (VResp 200 None true BOk false)].
